@@ -108,6 +108,8 @@ def evaluate(job, res):
     rec["sig"] = sig
     rec["sig_prefix"] = seq[:48]
     rec["virt_ns"] = run["virt_ns"] or 0
+    rec["victims_died"] = len(run.get("victims_died", []))
+    rec["caught_faults"] = list(run.get("caught_faults", (0, 0)))
     rec["battery"] = sorted(set((cid, dg) for (_, _, cid, dg) in run["battery"]))
     rec["battery_calls"] = len(run["battery"])
     rec["log_sha"] = hashlib.sha256(res["log"].encode()).hexdigest()
@@ -122,7 +124,7 @@ def run_batch(jobs, sim_dir=SIM_DIR, repo=REPO, workers=NCPU, stop_on_violation=
     # longest first (makespan), except that the cheap special-purpose kinds — thread churn, coarse clock, many
     # threads, pooled 16-thread runs: together a few per cent of the batch — go to the front, so that what only
     # they can see is reported in the first minute rather than the last
-    front = {"G", "C", "T", "P16", "X", "B"}
+    front = {"G", "C", "T", "P16", "X", "B", "N", "F", "Y"}
     order = sorted(jobs, key=lambda j: (0 if j.get("kind") in front else 1, -runner.predicted_cost(j)))
     recs = []
     stop = False
@@ -219,6 +221,13 @@ def minimise(job, target, sim_dir, repo, budget=60, wall_budget=150.0):
                     out.append((f"drop call {cyc[i][1]}{cyc[i][0]}", dict(c, cycle=nc, sizes=sorted(set(n for _, n in nc)))))
             if c.get("ops"):
                 out.append(("ops=0", dict(c, ops=0)))
+            if c.get("spawn"):
+                out.append(("spawn=0", dict(c, spawn=0)))
+            if c.get("fault"):
+                out.append(("fault=0", dict(c, fault=0)))
+                if c["fault"] == 3:
+                    out.append(("fault=1", dict(c, fault=1)))
+                    out.append(("fault=2", dict(c, fault=2)))
             if c.get("warm"):
                 out.append(("warm=0", dict(c, warm=0)))
             if c.get("gens", 1) > 1:
@@ -236,6 +245,13 @@ def minimise(job, target, sim_dir, repo, budget=60, wall_budget=150.0):
             out.append(("types", dict(c, types="lut" if v["typ"] == "L" else "static")))
         if c.get("battery"):
             out.append(("battery", dict(c, battery=0)))
+        if c.get("spawn"):
+            out.append(("spawn=0", dict(c, spawn=0)))
+        if c.get("fault"):
+            out.append(("fault=0", dict(c, fault=0)))
+            if c["fault"] == 3:
+                out.append(("fault=1", dict(c, fault=1)))
+                out.append(("fault=2", dict(c, fault=2)))
         if c.get("ops"):
             out.append(("ops=0", dict(c, ops=0)))
         if c.get("warm"):
@@ -331,11 +347,14 @@ def sysroot_note(jobs=None):
     if not sr:
         n = sum(1 for j in (jobs or []) if j.get("clockq"))
         log(f"NOTE: patched-clock sysroot unavailable ({err or 'build failed'}); using the stock Miri sysroot, {n} coarse-clock runs run with the fine clock")
-    if not runner.SYSROOT_BE and jobs is not None:
-        n = sum(1 for j in jobs if j.get("target"))
-        if n:
-            log(f"NOTE: sysroot for {runner.BE_TARGET} unavailable; the {n} big-endian runs of the plan are skipped")
-            jobs[:] = [j for j in jobs if not j.get("target")]
+    if jobs is not None:
+        for t in runner.TARGETS:
+            if t in runner.SYSROOTS:
+                continue
+            n = sum(1 for j in jobs if j.get("target") == t)
+            if n:
+                log(f"NOTE: sysroot for {t} unavailable; the {n} runs of the plan that interpret this target are skipped")
+                jobs[:] = [j for j in jobs if j.get("target") != t]
     return sr
 
 
@@ -479,7 +498,14 @@ def write_evidence_file(tier, seed, jobs, recs, audit, wall, reported, stopped, 
                 "entropy_seedings(one per thread that drew)": sum(runner.nthreads(r["job"]) + (1 if r["job"].get("warm") else 0) for r in ok),
                 "runs_with_main_thread_warm_up_before_workers": sum(1 for r in ok if r["job"].get("warm")),
                 "runs_with_coarse_clock(Instant quantised to 1ms..1s)": sum(1 for r in ok if r["job"].get("clockq")) if runner.SYSROOT else 0,
-                "runs_interpreting_a_big_endian_target(s390x)": sum(1 for r in ok if r["job"].get("target")),
+                "runs_interpreting_a_big_endian_target(s390x)": sum(1 for r in ok if r["job"].get("target") == runner.BE_TARGET),
+                "runs_interpreting_a_windows_target(x86_64-pc-windows-msvc)": sum(1 for r in ok if r["job"].get("target") == runner.WIN_TARGET),
+                "runs_interpreting_a_macos_aarch64_target(aarch64-apple-darwin)": sum(1 for r in ok if r["job"].get("target") == runner.MAC_TARGET),
+                "runs_with_named/scoped/nested_caller_threads(spawn modes 1-5)": {str(m): sum(1 for r in ok if r["job"].get("spawn") == m) for m in range(1, 6)},
+                "illegal_calls_injected_and_caught_between_draws": sum(r.get("caught_faults", [0, 0])[0] for r in ok),
+                "of_which_unwound": sum(r.get("caught_faults", [0, 0])[1] for r in ok),
+                "victim_threads_that_died_of_an_uncaught_panic_next_to_drawing_threads": sum(r.get("victims_died", 0) for r in ok),
+                "runs_with_the_callers_own_rand_use_between_draws(ops 20-27)": sum(1 for r in ok if r["job"].get("ops") and (r["job"]["ops"] & 1 or (r["job"]["ops"] >> 1) % plan.NOPS >= 20)),
                 "runs_interpreting_the_release_profile": sum(1 for r in ok if r["job"].get("release")),
                 "runs_with_more_than_255_threads_over_process_life": sum(1 for r in ok if runner.nthreads(r["job"]) > 255),
                 "runs_with_successive_thread_generations": sum(1 for r in ok if r["job"].get("gens", 1) > 1),
